@@ -67,5 +67,8 @@ open SoupVerif
 /-! Default namespace (Properties/C01Ns) -/
 #print axioms C01Ns.satType_implied
 #print axioms C01Ns.complex_ns
+#print axioms C01Ns.withImplied_ns
+#print axioms C01Ns.complex_id
+#print axioms C01Ns.complex_top
 #print axioms C01Ns.satCss_eq_satTop
 #print axioms C01Ns.select_exact_css
